@@ -53,8 +53,8 @@ def fn_case(rng):
     t = rng.choice([0, 1, 10 ** 15, 10 ** 16, 5 * 10 ** 16, 5 * 10 ** 17, D - 1, D, D + 1, 2 * D, rng.randrange(0, D + 1),
                     rng.randrange(0, D + 1)])
     sb = rng.choice([4, 10, 20, 40, 60, 64, 80, 100, 120, 128])
-    p0, p1 = gen.amount128(rng, sb), gen.amount128(rng, max(1, sb + rng.randrange(-30, 31)) if sb < 98 else sb)
-    d1 = gen.amount128(rng, rng.choice([4, 10, 20, 40, 60, 64, 80, 100]))
+    p0, p1 = gen.amount128(rng, sb), gen.amount128(rng, max(1, min(127, sb + rng.randrange(-70, 71))))
+    d1 = gen.amount128(rng, rng.choice([4, 10, 20, 40, 60, 64, 80, 100, 120]))
     r = rng.random()
     tag = "rand"
     if r < 0.55 and t <= D:
